@@ -1,7 +1,8 @@
 (* C17 Decoder robustness and leniency (partial: byte-level behaviour -- no panic on arbitrary bytes, zero value on
    error, destination untouched -- is explored on the real decoder at run time; the statements below are about the
    document tree, which is what the decoder sees after tokenising) *)
-From LD Require Import Base F32 Data Model Ops Codec CodecFacts.
+From LD Require Import Base F32 Data Model Ops Codec CodecFacts PermDecode.
+From Coq Require Import Permutation.
 
 Theorem C17_unknown_ignored_flag : forall pre k v post,
   unknown flag_names k -> decode_flag (JObj (pre ++ (k, v) :: post)) = decode_flag (JObj (pre ++ post)).
@@ -71,3 +72,49 @@ Theorem C17_written_properties_are_read :
   forallb (fun p => String.eqb p "" || mem_s p read_properties) written_properties = true.
 Proof. exact written_properties_are_read. Qed.
 Print Assumptions C17_written_properties_are_read.
+
+(* ---- property order is irrelevant ----
+   For every object the decoder reads -- flag, segment, rule, clause, target, prerequisite, rollout, variation-or-rollout,
+   weighted variation, segment rule, per-kind segment target, clientSideAvailability, migration -- any permutation of its
+   members (names pairwise distinct) decodes to the same value, or fails in both orders. The proofs go through
+   "any two steps for different names commute" (484 name pairs for a flag), so a decoder whose result depended on which
+   of two properties came first would break them. *)
+Theorem C17_order_irrelevant_flag : forall l l', Permutation l l' -> NoDup (map fst l) -> decode_flag (JObj l) = decode_flag (JObj l').
+Proof. exact perm_flag. Qed.
+Print Assumptions C17_order_irrelevant_flag.
+Theorem C17_order_irrelevant_segment : forall l l', Permutation l l' -> NoDup (map fst l) -> decode_segment (JObj l) = decode_segment (JObj l').
+Proof. exact perm_segment. Qed.
+Print Assumptions C17_order_irrelevant_segment.
+Theorem C17_order_irrelevant_rule : forall l l', Permutation l l' -> NoDup (map fst l) -> rd_rule (JObj l) = rd_rule (JObj l').
+Proof. exact perm_rule. Qed.
+Print Assumptions C17_order_irrelevant_rule.
+Theorem C17_order_irrelevant_clause : forall l l', Permutation l l' -> NoDup (map fst l) -> rd_clause (JObj l) = rd_clause (JObj l').
+Proof. exact perm_clause. Qed.
+Print Assumptions C17_order_irrelevant_clause.
+Theorem C17_order_irrelevant_target : forall l l', Permutation l l' -> NoDup (map fst l) -> rd_target (JObj l) = rd_target (JObj l').
+Proof. exact perm_target. Qed.
+Print Assumptions C17_order_irrelevant_target.
+Theorem C17_order_irrelevant_prerequisite : forall l l', Permutation l l' -> NoDup (map fst l) -> rd_prereq (JObj l) = rd_prereq (JObj l').
+Proof. exact perm_prereq. Qed.
+Print Assumptions C17_order_irrelevant_prerequisite.
+Theorem C17_order_irrelevant_rollout : forall l l', Permutation l l' -> NoDup (map fst l) ->
+  forall out, rd_rollout (JObj l) out = rd_rollout (JObj l') out.
+Proof. exact perm_rollout. Qed.
+Print Assumptions C17_order_irrelevant_rollout.
+Theorem C17_order_irrelevant_fallthrough : forall l l', Permutation l l' -> NoDup (map fst l) ->
+  forall out, rd_vorr (JObj l) out = rd_vorr (JObj l') out.
+Proof. exact perm_vorr. Qed.
+Print Assumptions C17_order_irrelevant_fallthrough.
+Theorem C17_order_irrelevant_weighted_variation : forall l l', Permutation l l' -> NoDup (map fst l) -> rd_wvar (JObj l) = rd_wvar (JObj l').
+Proof. exact perm_wvar. Qed.
+Print Assumptions C17_order_irrelevant_weighted_variation.
+Theorem C17_order_irrelevant_segment_rule : forall l l', Permutation l l' -> NoDup (map fst l) -> rd_segrule (JObj l) = rd_segrule (JObj l').
+Proof. exact perm_segrule. Qed.
+Print Assumptions C17_order_irrelevant_segment_rule.
+Theorem C17_order_irrelevant_segment_target : forall l l', Permutation l l' -> NoDup (map fst l) -> rd_segtarget (JObj l) = rd_segtarget (JObj l').
+Proof. exact perm_segtarget. Qed.
+Print Assumptions C17_order_irrelevant_segment_target.
+Theorem C17_order_irrelevant_client_side_availability : forall l l', Permutation l l' -> NoDup (map fst l) ->
+  forall m, rd_csa (JObj l) m = rd_csa (JObj l') m.
+Proof. exact perm_csa. Qed.
+Print Assumptions C17_order_irrelevant_client_side_availability.
